@@ -137,6 +137,7 @@ type FnCtx struct {
 	oblNames    map[string]int
 	finalVals   map[string]envVar
 	calledNames map[string]bool // names used in called("...") expressions of this function's contract
+	calledPairs map[[2]string]bool
 	eptr        map[string]types.Type // element sorts for which pointers to slice elements are created in this function
 	eptrLeaked  map[string]bool
 	staleGuards map[string]string // guard clauses that could not be elaborated at some site (clause -> message)
